@@ -1,5 +1,6 @@
 import FranzVerif.Model.C18
 import FranzVerif.Proof.C18
+import FranzVerif.Proof.C18RT
 /-! C18 — property theorems: produce requests encode the batched records within size limits.
 
 The model (`Model.C18`) transcribes `pkg/kgo/sink.go`; it is tied to the code by the differential run
@@ -23,12 +24,13 @@ What is proved, what is not:
 
 Full statement of the property, for reference (the parts marked ✗ are not theorems here):
   ∀ version 0–13, compressor, record set: `decode (encode req)` = one batch per partition with the buffered
-  records in order, consistent lengths / CRC position / deltas / attributes / producer id, epoch, sequence ✗(a);
+  records in order, consistent lengths / CRC position / deltas / attributes / producer id, epoch, sequence ✓ v3+ uncompressed (a);
   `(encode batch).length = accounted` uncompressed, `≤` compressed ✓ (v3+); message sets: `≤` only (b);
   written batch ≤ max batch size ✓ (v3+), FALSE for message sets (c);
   written request ≤ BrokerMaxWriteBytes ✓ v0–v8, FALSE v9–v13.
- (a) the decode∘encode round trip is not proved in Lean; it is checked on every differential case by the
-     independent strict reference decoder `Spec.C18` evaluated on the implementation's bytes;
+ (a) the decode∘encode round trip is proved for Produce v3–v13 without compressor (`decode_encode_request`,
+     `decoded_records_are_buffered`); with a compressor and for message sets (v0–v2) it is not proved in Lean and is
+     checked on every differential case by the same reference decoder evaluated on the implementation's bytes;
  (b) for message sets the accounting is an over-estimate by construction (`messageSet0Length` counts a 4-byte
      array length per record), so only `≤` holds (`message_set_length_le`), with or without compressor;
  (c) for Produce v0–v2 `tryBuffer` adds the *record-batch* size of the new record to the *message-set* size of
@@ -194,6 +196,51 @@ theorem request_length_flexible_exact (e : Env) (c : Cfg) (v corr pid ep : Int) 
       baseProduceRequestLength c + topicsAcct v ts + totalParts ts + ts.length + uvarintLen (1 + ts.length) :=
   appendRequest_eq_flex e c v corr pid ep ts hv hc htxn h
 
+/-! ### decode ∘ encode -/
+
+open Proof.C18RT in
+/-- **Round trip, Produce v3–v13, no compressor.** For every configuration, version 3–13, correlation id,
+producer id/epoch, CRC function (any function into 32 bits) and every list of topics with their partition batches
+(in any order) whose numbers fit their wire fields (`ReqWF`: no int16/int32/int64 overflow, 16-byte topic ids,
+batches satisfying the accounting invariant), the independent strict reference decoder `Spec.C18.requests`
+accepts the frame the client writes and returns exactly: the header fields, ids, acks and timeout, and per topic
+and per partition, in the written order, one batch with magic 2, the configured producer id and epoch, the
+partition's sequence (0 when not idempotent), the transactional bit iff a transactional id is configured, codec 0,
+`firstTimestamp`, `firstTimestamp + maxTimestampDelta`, and the buffered records in order, each with timestamp
+`firstTimestamp + tsDelta`, key, value and headers. Acceptance includes the checks of every length field, the CRC
+over attributes…end, base offset 0, leader epoch -1, offset deltas 0..n-1, `lastOffsetDelta = n-1`, empty tag
+sections and nothing trailing. -/
+theorem decode_encode_request (crc crc32 : Model.C18.Bytes → Nat) (hcrc : ∀ x, crc x < 4294967296) (c : Cfg) (v corr pid ep : Int)
+    (ts : List TopicBatches) (h : ReqWF c v corr pid ep ts)
+    (hlen : (appendRequest (env0 crc crc32) c v corr pid ep ts).length < 2147483648) :
+    Spec.C18.requests crc crc32 false [] [appendRequest (env0 crc crc32) c v corr pid ep ts] =
+      .ok [dReq crc (appendRequest (env0 crc crc32) c v corr pid ep ts).length c v corr pid ep ts] := by
+  have e := fun l => run_of_R (R_request crc crc32 hcrc c v corr pid ep ts [] h hlen) l
+  simp only [List.nil_append] at e
+  simp [Spec.C18.requests, Spec.C18.requestsP, e]
+  rfl
+
+open Proof.C18RT in
+/-- The decoded records of a buffered batch are the buffered records themselves: `firstTimestamp + tsDelta` is each
+record's own timestamp, `firstTimestamp` is the first record's, and the written `maxTimestamp` is the largest of them. -/
+theorem decoded_records_are_buffered (pv m : Int) (rs : List Rec) :
+    ∀ b ∈ (bufferAll pv m [] rs).1,
+      (b.records.map (dRec b.firstTimestamp) =
+        b.records.map (fun pr => (⟨some pr.r.ts, pr.r.key, pr.r.value, pr.r.headers.map dHeader⟩ : Spec.C18.DRec)))
+      ∧ (∀ pr ∈ b.records, pr.r.ts ≤ b.firstTimestamp + b.maxTimestampDelta)
+      ∧ (∃ pr ∈ b.records, pr.r.ts = b.firstTimestamp + b.maxTimestampDelta) := by
+  intro b hb
+  have ht := bufferAll_tsInv pv m rs b hb
+  have hB := buffered_batches pv m rs b hb
+  refine ⟨?_, ?_, ?_⟩
+  · apply List.map_congr_left
+    intro pr hpr
+    simp [dRec, ht.delta pr hpr]
+  · intro pr hpr
+    have := ht.delta pr hpr; have := ht.le pr hpr; omega
+  · obtain ⟨pr, hpr, hq⟩ := ht.attained hB.2.1
+    exact ⟨pr, hpr, by have := ht.delta pr hpr; omega⟩
+
 /-! ### the counterexample to the flexible request bound -/
 
 def wVal : Bytes := List.replicate 413 0#8
@@ -218,6 +265,41 @@ private theorem wBatches_eq : wBatches = [wBatch] := by
   simp [wBatches, wBatch, bufferAll, bufferRecord, tryBuffer, newRecordBatch, recordBatchOverhead, calculateRecordNumbers,
     wireLengthForProduceVersion, flexibleWireLength, batchLength, uvar32, uvarintLen, varintLen, numsWireLength, appendRecord,
     messageSet1Length, messageSet0Length, wRec, blen, headersLen, zz, l0, l62, l826, l840, wVal_length]
+
+open Proof.C18RT in
+/-- non-vacuity of `decode_encode_request`: the two-partition v13 request of the counterexample below satisfies
+`ReqWF` (so the written 1025-byte frame decodes to its two one-record batches) -/
+example : ReqWF wCfg 13 7 5 0 [{ topic := [0x74#8], topicID := wId, parts := [⟨0, 0, wBatch⟩, ⟨1, 0, wBatch⟩] }] := by
+  have hB := buffered_batches 13 1000 [wRec] wBatch (by
+    have : wBatches = [wBatch] := wBatches_eq
+    simp only [wBatches] at this; rw [this]; simp)
+  have hok : Proof.C18.RecOK ⟨wRec, 420, 0⟩ 0 := by
+    have := hB.1.ok; simp only [wBatch, Proof.C18.AllOK] at this; exact this.1
+  have z0 : zz (0 : Int) = 0 := by simp [zz]
+  have z420 : zz ((420 : Nat) : Int) = 840 := by simp [zz]
+  have z413 : zz ((413 : Nat) : Int) = 826 := by simp [zz]
+  have hpr : PRecOK ⟨wRec, 420, 0⟩ 0 :=
+    { len := by unfold LenOK; rw [z420, l840]; omega
+      tsd := by simp only [z0, l0]; omega
+      idx := by unfold LenOK; simp only [Int.natCast_zero, z0, l0]; omega
+      key := by unfold LenOK; simp only [wRec, blen, Int.natCast_zero, z0, l0]; omega
+      value := by unfold LenOK; simp only [wRec, blen, wVal_length, z413, l826]; omega
+      nh := by unfold LenOK; simp only [wRec, List.length_nil, Int.natCast_zero, z0, l0]; omega
+      hdrs := by simp [wRec]
+      ok := hok }
+  have hbw : BatchWF wBatch 5 0 (if (5 : Int) < 0 then 0 else 0) :=
+    { inv := hB.1, recs := ⟨hpr, trivial⟩, ft := by unfold I64; simp [wBatch], mt := by unfold I64; simp [wBatch],
+      pid := by unfold I64; omega, ep := by unfold I16; omega, seq := by unfold I32; simp,
+      ne := by simp [wBatch], wl := by simp [wBatch], n := by simp [wBatch] }
+  exact
+    { v3 := by omega, v13 := by omega, corr := by unfold I32; omega, cid := by simp [wCfg, blen], txn := by simp [wCfg, blen],
+      acks := by unfold I16; simp [wCfg], timeout := by unfold I32; simp [wCfg], nt := by simp,
+      topics := by
+        intro t ht
+        simp only [List.mem_cons, List.not_mem_nil, or_false] at ht
+        subst ht
+        exact { id := wId_length, name := by simp, np := by simp,
+                parts := ⟨⟨by unfold I32; simp, hbw⟩, ⟨by unfold I32; simp, hbw⟩, trivial⟩ } }
 
 set_option maxRecDepth 8000 in
 /-- **The full request bound is false for flexible versions**: two one-record partitions of one topic at
